@@ -24,14 +24,16 @@ LEVEL = 'model_checking'
 
 
 def build(args):
-    label, occ, kinds, n_pos = args
+    label, occ, kinds, n_pos = args[:4]
+    model = args[4] if len(args) > 4 else 'flow'
     dassh = common.import_dassh()
-    # reference: same layout, every assembly without a pin bundle
+    # reference: same layout, every assembly without a pin bundle (always
+    # with the flowing-gap model: the geometry does not depend on the model)
     cfg0, ev0, core0 = core_struct.core_events(
         dassh, occ, [(0, 0)] * len(occ), n_pos)
     ref = float(core0.gap_params['total area']) if core0 is not None else None
     cfg, ev, core = core_struct.core_events(dassh, occ, kinds, n_pos,
-                                            area_ref=ref)
+                                            area_ref=ref, model=model)
     return {'label': label, 'cfg': cfg, 'ev': ev}
 
 
@@ -66,6 +68,10 @@ def reactor_cases(rng, tier):
             if listing:
                 cc['ftf_listing'] = listing
             out.append((f'reactor:{lab}:{listing or "asc"}', cc))
+        for gm in ('no_flow', 'duct_average'):
+            cc = copy.deepcopy(c)
+            cc['gap_model'] = gm
+            out.append((f'reactor:{lab}:{gm}', cc))
     return out
 
 
@@ -84,6 +90,13 @@ def layouts(rng, tier):
     # uniform meshes
     for k in kinds_pool:
         out.append((f'7:all:{k}', list(range(7)), [k] * 7, 7))
+    # the other gap models on a sample of layouts: the gap geometry is the
+    # same whatever the heat-transfer model of the gap
+    for model in ('no_flow', 'duct_average'):
+        for occ in ([0, 1, 2, 4], [1, 4], list(range(7)), [0, 3, 5, 6]):
+            kinds = [kinds_pool[(i + len(occ)) % len(kinds_pool)] for i in occ]
+            out.append((f'7:{"".join(map(str, occ))}:{model}', occ, kinds, 7,
+                        model))
     n19 = 3 if tier == 'quick' else 60
     n37 = 1 if tier == 'quick' else 30
     for n_pos, cnt in ((19, n19), (37, n37)):
